@@ -516,6 +516,25 @@ def E_readonly_memory(rng, tier):
                                                                       ro(poly, "y")),
     }
 
+    # documented *output* arguments that live in memory the process may not write: the
+    # call must be refused (or work on a copy), never store into that memory
+    def ro_outputs():
+        ins = np.zeros(len(pts), dtype=np.int32)
+        variants = [ro(ins, "ins"),
+                    np.frombuffer(bytes(ins.tobytes()), dtype=np.int32)]
+        v3 = ins.copy()
+        v3.setflags(write=False)
+        variants.append(v3)
+        for v in variants:
+            before = bytes(np.asarray(v).tobytes())
+            try:
+                gutils.points_inside_polygon(pts.copy(), poly.copy(), inside=v)
+            except (ValueError, TypeError, AssertionError):
+                pass
+            if bytes(np.asarray(v).tobytes()) != before:
+                os.write(2, b"\nHYVERIF-MONITOR: store-into-read-only-buffer c_inside\n")
+    calls["readonly-output-vector"] = ro_outputs
+
     def gridcalls():
         g = _grid(6, 7)
         g.data = ro(r.normal(size=(6, 7)), "gd")
@@ -946,6 +965,7 @@ def worker_main(argv):
 # ============================================================== log parsing ====
 RE_ASAN = re.compile(r"==\d+==ERROR: AddressSanitizer: (\S+)")
 RE_UBSAN = re.compile(r"^(\S+?):(\d+):(\d+): runtime error: (.*)$")
+RE_MON = re.compile(r"^HYVERIF-MONITOR: (\S+) (\S+)")
 RE_FRAME = re.compile(r"#\d+ 0x[0-9a-f]+ in (\S+) (\S+)")
 UB_KINDS = [("signed integer overflow", "signed-integer-overflow"),
             ("division by zero", "integer-divide-by-zero"),
@@ -989,6 +1009,15 @@ def parse_log(text):
             reports.append({"case": cur, "kind": "asan:" + m.group(1),
                             "function": fn or "?", "where": where or "?",
                             "excerpt": "\n".join(block[:14])})
+            i += 1
+            continue
+        m = RE_MON.match(ln.strip())
+        if m:
+            # a violation observed by the harness itself at the Python / C frontier
+            # (same three-part key as a sanitizer report)
+            reports.append({"case": cur, "kind": "monitor:" + m.group(1),
+                            "function": m.group(2), "where": "?",
+                            "excerpt": ln.strip()})
             i += 1
             continue
         m = RE_UBSAN.match(ln.strip())
